@@ -8,6 +8,7 @@ def stopping_plan(prop, ctx, with_t3=False, with_x=True):
     P = []
     if ctx.thorough:
         P.append(sweep.universe_shards(prop, "U-S2", j, rewards="all012", stopping_only=True))
+        P.append(sweep.universe_shards(prop, "U-S2d2", j, rewards="allmixed", stopping_only=True))
         P.append(sweep.universe_shards(prop, "U-S3", j, rewards="all01", stopping_only=True))
         P.append(sweep.universe_shards(prop, "U-S4r", j, rewards="all01", stopping_only=True, frac=8, seed=ctx.seed))
         P.append(sweep.family_shards(prop, "U-F", j, max_deg=5, focus_reward=1))
@@ -17,6 +18,7 @@ def stopping_plan(prop, ctx, with_t3=False, with_x=True):
             P.append(sweep.universe_shards(prop, "U-T3", j, rewards="all01", stopping_only=True))
     else:
         P.append(sweep.universe_shards(prop, "U-S2d2", j, rewards="all012", stopping_only=True))
+        P.append(sweep.universe_shards(prop, "U-S2d2", j, rewards="allmixed", stopping_only=True, frac=4, seed=ctx.seed))
         P.append(sweep.universe_shards(prop, "U-S2", j, rewards="all01", stopping_only=True, frac=8, seed=ctx.seed))
         P.append(sweep.universe_shards(prop, "U-S3", j, rewards="all01", stopping_only=True, frac=64, seed=ctx.seed))
         P.append(sweep.family_shards(prop, "U-F", j, max_deg=3, focus_reward=1))
